@@ -62,6 +62,10 @@ EXTRA.update({
  "C07-r12gam1": ["C07"], "C04-r12gam2": ["C04"], "C08-r12gbm1": ["C08"], "C08-r12gbm2": ["C08"], "C03-r12gcm1": ["C03", "C04"], "C09-r12gcm2": ["C09", "C04", "C03"],
  "C13-r12gdm1": ["C13", "C16"], "C16-r12gdm2": ["C16"], "C14-r12gem1": ["C14"], "C17-r12gem2": ["C17", "C04"], "C15-r12gfm1": ["C15", "C05"], "C01-r12gfm2": ["C05", "C01"],
 })
+EXTRA.update({
+ "C16-r13gam1": ["C16", "C13"], "C09-r13gam2": ["C09"], "C03-r13gbm1": ["C07", "C03"], "C03-r13gbm2": ["C03", "C04"], "C15-r13gcm1": ["C15"], "C04-r13gcm2": ["C04"],
+ "C05-r13gdm1": ["C05", "C04"], "C17-r13gdm2": ["C17"], "C06-r13gem1": ["C06"], "C12-r13gem2": ["C12"], "C07-r13gfm1": ["C07"], "C09-r13gfm2": ["C09"],
+})
 PREFIX_PROP = {"d8b687c": ["C06"], "da7613f": ["C16"], "64a92d9": ["C02"], "2c87331": ["C13", "C02", "C12"], "06fc22c": ["C05", "C11"],
                "85dc330": ["C05", "C11"], "4c427cc": ["C13"], "a8065bf": ["C13"], "a4e97cf": ["C11"], "2aa0389": ["C04"],
                "9db7846": ["C17"], "23f20cf": ["C17"], "b18464c": ["C07"], "d06cb78": ["C10"], "796c1d9": ["C01", "C11"], "e184993": ["C10"]}
